@@ -150,8 +150,8 @@ def main(argv):
         if n == 0 and lost:
             continue  # already reported as a lost anchor
         # the floor guards against a rule that silently matches (almost) nothing; a refactoring that merges two sites into
-        # one must not trip it, so it fires below 60 % of the count confirmed on the reference tree (and always at zero)
-        if n < r.floor and (n == 0 or n * 10 < r.floor * 6):
+        # one must not trip it, so it fires below half of the count confirmed on the reference tree (and always at zero)
+        if n < r.floor and (n == 0 or n * 2 < r.floor):
             r.fail("floor", "only %d instances found, %d were confirmed by hand on the reference tree: an anchor moved or most sites disappeared; re-confirm by reading" % (n, r.floor))
     known = load_known()
     known_keys = {f["key"]: f for f in known.get("findings", []) if f.get("property") == pid}
